@@ -61,8 +61,8 @@ CLAIMED.update({
 CLAIMED.update({
  'C16': dict(
    technique='Lean 4 proof: equality of the slice/iterator writers with the vector writer (bytes, both hash feeds, whole stream), hash feeds through arbitrary nesting by mutual structural induction, decision logic of the length check; correspondence on real &[T], SerIter and generic structures',
-   text='Kernel-checked: slice_ser_eq_vec / iter_ser_eq_vec (whole stream, header included), iter_writer_eq_vec (the item-by-item iterator writer emits exactly the vector bytes), iter_mismatch / iter_ok_iff (a lying iterator yields the length-mismatch error with both counts, for every announced/actual pair, never success), typeFeed_vecify / typeHash_vecify (replacing slices/iterators by vectors anywhere in a type, in particular in type-parameter fields of derived structures, preserves the type hash). The run serializes real Vec<T>, &[T], SerIter and Wrap<_> of each for zero-copy and deep element types and compares the six streams with each other and with the model; lying iterators for all pairs.',
-   note='byte equality for structures holding a slice/iterator is established by the correspondence and by the definitional equality of the field writers (slice_enc_eq_vec); a general enc_vecify theorem through arbitrary nesting is not yet proved (layout-invariance lemmas are).',
+   text='Kernel-checked: slice_ser_eq_vec / iter_ser_eq_vec (whole stream, header included), iter_writer_eq_vec (the item-by-item iterator writer emits exactly the vector bytes), iter_mismatch / iter_ok_iff (a lying iterator yields the length-mismatch error with both counts, for every announced/actual pair, never success), typeFeed_vecify / typeHash_vecify / alignHash_vecify / enc_vecify / ser_vecify (replacing slices/iterators by vectors anywhere in a type — under vectors, options, arrays, in fields of derived structures and enums, at any depth — preserves both hashes, every byte written at every stream position, hence the whole stream). The run serializes real Vec<T>, &[T], SerIter and Wrap<_> of each for zero-copy and deep element types and compares the six streams with each other and with the model; lying iterators for all pairs.',
+   note='the iterator writer of the model is the item-by-item writer of impls/iter.rs (iter_writer_eq_vec ties it to the vector bytes); the serialization-only types have no readers (deserializing the stream as the vector type is C01/C02).',
    design='5/C16'),
 })
 
